@@ -3,3 +3,5 @@
     [Print Assumptions]. *)
 From HV Require Export PropsRing.
 From HV Require Export PropsInbox.
+From HV Require Export PropsWire.
+From HV Require Export PropsCluster.
